@@ -29,8 +29,8 @@ from maus.models.edifact_components import (
 )
 
 RC = ["1", "2", "3", "4", "5", "6"]
-HINTS = ["501", "502"]
-FCS = ["901", "902"]
+HINTS = ["501", "502", "900", "500"]
+FCS = ["901", "902", "999"]
 MODAL = {"MUSS": ["Muss", "M", "muss", "MUSS"], "SOLL": ["Soll", "S", "soll", "SOLL"], "KANN": ["Kann", "K", "kann"]}
 PACKAGES = {"7P": "[1] U [2]", "8P": "[3] O [4]"}
 # the same package keys mean different things in different content evaluation results (runs in one process must not remember them)
@@ -54,7 +54,8 @@ def gen_expr(rng: random.Random, pool, p_invalid: float = 0.0, p_soll: float = 0
     def cond():
         if rng.random() < 0.1:
             # packages in every legal spelling: plain, with repeatability, with blanks inside the brackets, twice in one expression
-            return rng.choice(["[7P]", "[7P] U [5]", "[8P][901]", "[7P0..1]", "[7P 1..2] U [5]", "[ 8P ][901]", "[8P2..3] O [7P]", "[7P] U [8P] U [7P]", "[ 7P 0..3 ]"])
+            return rng.choice(["[7P]", "[7P] U [5]", "[8P][901]", "[7P0..1]", "[7P 1..2] U [5]", "[ 8P ][901]", "[8P2..3] O [7P]", "[7P] U [8P] U [7P]", "[ 7P 0..3 ]",
+                               "[7P] U [7P] U [8P]", "[8P] O [8P] O [7P]", "[7P] O ([8P] U [4])", "[8P] O ([7P] U [4])", "([7P] U [3]) O [8P]"])
         if rng.random() < 0.08:
             # unfulfilled and still carrying a hint: an exclusive or of two fulfilled branches, one of them with a hint (a forbidden node with a hint)
             a, b = rng.sample(["1", "2", "3", "4"], 2)
@@ -184,9 +185,14 @@ _eval_cache: Dict[Any, Any] = {}
 
 
 def eval_node_expr(text: str, cer, entered_input=None) -> Dict[str, Any]:
-    """what validation sees of a node's expression: the evaluation result of the selected part, or 'invalid'"""
+    """what validation should see of a node's expression: the evaluation result of the selected part, or 'invalid'.
+    Packages are substituted TEXTUALLY first (C10: resolving = bracketed textual substitution), so this reference does not go through
+    the library's package expansion and notices when validation resolves packages differently."""
     set_cer(cer)
     E.disarm()
+    import re as _re
+    pk = cer.get("packages") or {}
+    text = _re.sub(r"\[\s*(\d+P)[^\]]*\]", lambda m: "(" + pk[m.group(1)] + ")" if m.group(1) in pk else m.group(0), text)
 
     async def go():
         tree = await parse_expression_including_unresolved_subexpressions(text, resolve_packages=True)
